@@ -171,6 +171,7 @@ EXPECTED = {
     "draw": "ln(1 - gen::<f64>())",
     "skip_quotient": "ln(1 - U) / ln(1 - p)",
     "cursor_advance": "saturating",
+    "cursor_start": -1,
     "plain_arithmetic_on_saturated_cursor": None,
     "carry_cursor_op": "Sub",
     "carry_row_step": "+1",
@@ -309,6 +310,16 @@ def kernel_features(prog, flows, k):
                 ops.add(s.rv.j["op"].replace("WithOverflow", ""))
         op = "/".join(sorted(ops)) if ops else None
     f["carry_cursor_op"] = op
+    # the cursor starts one slot BEFORE the first slot (every draw advances it by 1 + skip): -1
+    start = None
+    if cursor is not None:
+        for (bb_, d_) in k.assigns_to(cursor):
+            rv_ = getattr(d_, "rv", None)
+            if rv_ is not None and rv_.k == "use" and rv_.ops and rv_.ops[0].is_const() and all(k.dominates(bb_, x.bb) for x in gens):
+                start = rv_.ops[0].const_int()
+                if start is not None and start >= 2 ** 31:
+                    start -= 2 ** 32
+    f["cursor_start"] = start
     # the directed kernel walks the n x n grid including the diagonal and steps over slot (v, v).  After a carry the
     # cursor can land on the diagonal of the NEW row, and stepping over it can push the cursor out of the row again
     # (slot (n-1, n-1) -> w = n): so the diagonal test sits INSIDE the carry loop, whose condition is then re-tested
